@@ -124,6 +124,24 @@ partial def parseL : List String → Option (List LStmt)
     match operandOf c, parseSimples rest with
     | some c, some (body, "]" :: tl) => (parseL tl).map fun r => .sif c (inv == "1") body :: r
     | _, _ => none
+  | "{" :: c :: rest =>
+    match operandOf c, parseSimples rest with
+    | some c, some (s1, "|" :: tl1) =>
+      match parseSimples tl1 with
+      | some (s2, ";" :: n :: tl2) =>
+        match n.toNat? with
+        | some n =>
+          let ts := tl2.take (3 * n)
+          let fas := (List.range n).filterMap fun i =>
+            match exprOf (ts.getD (3 * i) ""), operandOf (ts.getD (3 * i + 1) ""), operandOf (ts.getD (3 * i + 2) "") with
+            | some (.var x), some a, some b => some (x, a, b)
+            | _, _, _ => none
+          match tl2.drop (3 * n) with
+          | "}" :: tl3 => if fas.length = n then (parseL tl3).map fun r => .ife c s1 s2 fas :: r else none
+          | _ => none
+        | none => none
+      | _ => none
+    | _, _ => none
   | ws =>
     match parseSimples ws with
     | some (st :: sts, tl) => (parseL tl).map fun r => (st :: sts).map LStmt.s ++ r
@@ -139,6 +157,12 @@ def showSimple : Simple → String
 def showL : LStmt → String
   | .s st => showSimple st
   | .sif c inv body => s!"[ {showOpd c} {if inv then 1 else 0} " ++ " ".intercalate (body.map showSimple) ++ (if body.isEmpty then "]" else " ]")
+  | .ife c s1 s2 fas =>
+    let b1 := " ".intercalate (s1.map showSimple)
+    let b2 := " ".intercalate (s2.map showSimple)
+    let f := " ".intercalate (fas.map fun fa => s!"v{pad2 fa.1} {showOpd fa.2.1} {showOpd fa.2.2}")
+    "{ " ++ showOpd c ++ " " ++ (if b1.isEmpty then "" else b1 ++ " ") ++ "| " ++ (if b2.isEmpty then "" else b2 ++ " ")
+      ++ "; " ++ toString fas.length ++ " " ++ (if f.isEmpty then "" else f ++ " ") ++ "}"
 
 def lvnAnswer (ws : List String) : String :=
   match parseL ws with
@@ -156,6 +180,51 @@ def cseAnswer (ws : List String) : String :=
     let ks := (ks.eraseDups.toArray.qsort (· < ·)).toList
     "hoisted " ++ (if ks.isEmpty then "-" else ",".intercalate ks)
   | _, _ => "bad-line"
+
+/-- `inl NP arg*NP RET <callee body>`: what replaces `v90 = f1(args)`; mangled names print as `m:v<k>` -/
+def showOpdM (o : Operand) : String :=
+  match o with
+  | .var k => if k ≥ 1000 then "m:v" ++ pad2 (k - 1000) else "v" ++ pad2 k
+  | .lit n => "i" ++ toString n
+
+def showSimpleM : Simple → String
+  | .bin x o a b => s!"b {showOpdM (.var x)} {opName o} {showOpdM a} {showOpdM b}"
+  | .print a => s!"p {showOpdM a}"
+  | .brk a => s!"k {showOpdM a}"
+
+def inlAnswer (ws : List String) : String :=
+  match ws with
+  | np :: rest =>
+    match np.toNat? with
+    | some np =>
+      match (rest.take np).mapM operandOf, operandOf (rest.getD np ""), parseSimples (rest.drop (np + 1)) with
+      | some args, some ret, some (body, []) =>
+        let f : Callee := { ps := List.range np, body := body, ret := ret }
+        " ".intercalate ((inlineCall (· + 1000) f args 90).map showSimpleM)
+      | _, _, _ => "bad-line"
+    | none => "bad-line"
+  | _ => "bad-line"
+
+/-- `lvnw <prefix statements> ~ N (name init loopvalue)*N | <body>`: LVN of a block followed by a `While` -/
+def lvnwAnswer (ws : List String) : String :=
+  let i := ws.idxOf "~"
+  let j := ws.idxOf "|"
+  match parseSimples (ws.take i), ((ws.drop (i + 1)).headD "").toNat?, parseL (ws.drop (j + 1)) with
+  | some (pre, []), some n, some body =>
+    let ts := (ws.drop (i + 2)).take (3 * n)
+    let lvs := (List.range n).filterMap fun k =>
+      match exprOf (ts.getD (3 * k) ""), operandOf (ts.getD (3 * k + 1) ""), operandOf (ts.getD (3 * k + 2) "") with
+      | some (.var x), some a, some b => some (x, a, b)
+      | _, _, _ => none
+    if lvs.length ≠ n || j ≠ i + 2 + 3 * n then "bad-line" else
+    let r := lvnSimple pre { ren := [], avail := [] }
+    let W := lvnLoop { lvs := lvs, body := body } r.2
+    let showPre := " ".intercalate (r.1.map showSimple)
+    let showLv := " ".intercalate (W.lvs.map fun lv => s!"v{pad2 lv.1} {showOpd lv.2.1} {showOpd lv.2.2}")
+    let showB := " ".intercalate (W.body.map showL)
+    (if showPre.isEmpty then "" else showPre ++ " ") ++ "~ " ++ toString n ++ " " ++ (if showLv.isEmpty then "" else showLv ++ " ")
+      ++ "|" ++ (if showB.isEmpty then "" else " " ++ showB)
+  | _, _, _ => "bad-line"
 
 def licmAnswer (ws : List String) : String :=
   match parseS ws with
@@ -223,7 +292,9 @@ def step (_ : Unit) (line : String) : Unit × String :=
     | "dce" :: rest => dceAnswer rest
     | "licm" :: rest => licmAnswer rest
     | "lvn" :: rest => lvnAnswer rest
+    | "lvnw" :: rest => lvnwAnswer rest
     | "cse" :: rest => cseAnswer rest
+    | "inl" :: rest => inlAnswer rest
     | "srloop" :: rest => srAnswer true rest
     | "srorig" :: rest => srAnswer false rest
     | [kind, g, i0, st, b, m, c, fuel] =>
